@@ -609,6 +609,13 @@ func (vc *VC) computeEscapes() map[*types.Var]*escInfo {
 				}
 				loops = loops[:len(loops)-1]
 				return false
+			case *ast.ValueSpec:
+				// var v []T (= nil / make / literal): fine; anything else makes v share somebody else's array
+				for i, n := range x.Names {
+					if _, e := get(n); e != nil && i < len(x.Values) && !ownArray(info, x.Values[i], n) {
+						e.never = true
+					}
+				}
 			case *ast.AssignStmt:
 				for i, l := range x.Lhs {
 					lid, ok := ast.Unparen(l).(*ast.Ident)
@@ -616,6 +623,11 @@ func (vc *VC) computeEscapes() map[*types.Var]*escInfo {
 						continue
 					}
 					safe[lid] = true
+					if _, e := get(lid); e != nil {
+						if len(x.Lhs) != len(x.Rhs) || !ownArray(info, x.Rhs[i], lid) {
+							e.never = true // assigned from a call result, another variable, a sub-slice ...: not its own array
+						}
+					}
 					if i < len(x.Rhs) && len(x.Lhs) == len(x.Rhs) {
 						// v = append(v, ...): the first argument is a safe use
 						if ce, ok := ast.Unparen(x.Rhs[i]).(*ast.CallExpr); ok {
@@ -651,6 +663,36 @@ func (vc *VC) computeEscapes() map[*types.Var]*escInfo {
 	}
 	walk(vc.fd.Body, map[*ast.Ident]bool{})
 	return out
+}
+
+// ownArray: the expression gives the variable an array nobody else holds: nil, make, a slice literal, or
+// append(v, ...) / append(nil-literal, ...) on the variable itself.
+func ownArray(info *types.Info, e ast.Expr, v *ast.Ident) bool {
+	switch x := ast.Unparen(e).(type) {
+	case *ast.Ident:
+		return x.Name == "nil" && info.ObjectOf(x) == types.Universe.Lookup("nil")
+	case *ast.CompositeLit:
+		return true
+	case *ast.CallExpr:
+		fid, ok := x.Fun.(*ast.Ident)
+		if !ok {
+			return false
+		}
+		if _, isBuiltin := info.ObjectOf(fid).(*types.Builtin); !isBuiltin {
+			return false
+		}
+		switch fid.Name {
+		case "make":
+			return true
+		case "append":
+			if len(x.Args) == 0 {
+				return false
+			}
+			aid, ok := ast.Unparen(x.Args[0]).(*ast.Ident)
+			return ok && info.ObjectOf(aid) == info.ObjectOf(v)
+		}
+	}
+	return false
 }
 
 // childrenOf: the direct child nodes of a loop statement (so that the walker can recurse with the loop on its stack).
